@@ -1,5 +1,6 @@
 import WzVerif.Driver.Proto
 import WzVerif.Model.Accept
+import WzVerif.Driver.PyPrelude
 namespace Wz.Driver.C17
 open Wz Wz.Proto Wz.Accept
 
@@ -71,6 +72,6 @@ def handle : Handler
     match unhexStr s with
     | some s => some (outList hexStr (mimeSplit s))
     | none => some badArgs
-  | _, _ => none
+  | cmd, args => Wz.Driver.PyPrelude.handle cmd args  -- `pre.*`: primitives of Util/PyPrelude
 
 end Wz.Driver.C17
